@@ -43,6 +43,10 @@ def run(chk):
         else:
             r0 = min(n, rows)
             X = rng.integers(-24, 25, size=(rows, n)) / 8.0
+        if kind == "RandomProjection" and rng.random() < 0.4:
+            # badly scaled examples (exact powers of two): the modes X^T G stay full rank but become ill-conditioned
+            X = X * (2.0 ** -np.linspace(0, int(rng.integers(12, 25)), rows))[:, None]
+            chk.count("rp_badly_scaled")
         if kind == "Identity":
             nb = None if rng.random() < 0.4 else int(rng.integers(1, rows + 1))
             mk = lambda: Identity(n_basis_modes=nb)
@@ -93,10 +97,15 @@ def run(chk):
                 if not np.array_equal(Ik, Mk.T):
                     chk.violation("impl", "inverse-not-transpose", f"{kind}: matrix_inverse({k}) is not the transpose of the first {k} modes", {**case, "k": k})
             else:
-                if np.linalg.matrix_rank(Mk) == k and np.linalg.cond(Mk) < 1e6:
-                    if np.max(np.abs(Ik @ Mk - np.eye(k))) > 1e-8 * np.linalg.cond(Mk):
-                        chk.violation("impl", "pinv-not-left-inverse", f"RandomProjection: matrix_inverse({k}) @ modes differs from the identity", {**case, "k": k})
-                    coq(f"check_left_inverse {C.cq(F(1, 10 ** 7))} {n} {k} {C.cqmat(q(Ik))} {C.cqmat(q(Mk))}", {**case, "what": f"pinv left inverse k={k}"})
+                cond = float(np.linalg.cond(Mk))
+                if np.linalg.matrix_rank(Mk) == k and cond < 1e9:
+                    # a backward-stable pseudo-inverse has |P M - I| ~ eps * cond; anything that squares the condition number is far outside
+                    tol = 1e-12 * cond + 1e-13
+                    err = float(np.max(np.abs(Ik @ Mk - np.eye(k))))
+                    if err > tol:
+                        chk.violation("impl", "pinv-not-left-inverse", f"RandomProjection: matrix_inverse({k}) @ modes differs from the identity by {err:.3g} "
+                                      f"(cond {cond:.3g}, tolerance {tol:.3g})", {**case, "k": k})
+                    coq(f"check_left_inverse {C.cq(F(tol))} {n} {k} {C.cqmat(q(Ik))} {C.cqmat(q(Mk))}", {**case, "what": f"pinv left inverse k={k}"})
         for bad in (0, -1, avail + 1, avail + 5):
             for meth in ("matrix_representation", "matrix_inverse"):
                 try:
@@ -123,6 +132,20 @@ def run(chk):
                     chk.violation("impl", "svd-low-rank-not-reproduced", f"{kind}: data of rank {r0} are not reproduced by {avail} modes", case)
                 coq(f"check_reproduces {C.cq(F(1, 10 ** 6))} {rows} {n} {avail} {C.cqmat(q(X))} {C.cqmat(q(full))}", {**case, "what": "rank<=k reproduced"})
                 chk.count("lowrank_reproduction_cases")
+            # the same object fitted again on OTHER data of the same width must forget the first fit
+            r1 = int(rng.integers(1, avail + 1))
+            X2 = (rng.integers(-6, 7, size=(rows, r1)) @ rng.integers(-4, 5, size=(r1, n))).astype(float) / 4.0
+            try:
+                impl.quiet(b.fit, X2)
+                M2 = np.array(b.matrix_representation())
+                # (modes of degenerate singular values are not unique, so the refit is judged by the property, not by equality with a fresh fit)
+                if M2.shape != (n, avail) or np.max(np.abs(M2.T @ M2 - np.eye(avail))) > 1e-8:
+                    chk.violation("impl", "svd-refit-not-orthonormal", f"{kind}: after a refit on other data the modes are not {avail} orthonormal vectors", {**case, "X2": X2.tolist()})
+                elif np.max(np.abs(X2 @ M2 @ M2.T - X2)) > 1e-7 * (1 + np.abs(X2).max()):
+                    chk.violation("impl", "svd-refit-low-rank-not-reproduced", f"{kind}: after a refit, data of rank {r1} are not reproduced by {avail} modes", {**case, "X2": X2.tolist()})
+                chk.count("svd_refit_checked")
+            except Exception as e:
+                chk.count("svd-refit-rejected:" + type(e).__name__)
         elif kind == "RandomProjection":
             Gm = np.array(b.components_)            # (n_components, n_examples)
             if not np.allclose(full, X.T @ Gm.T, rtol=1e-12, atol=1e-12):
